@@ -1717,8 +1717,9 @@ void femm::FemmProblem::mirrorCopy(double x0, double y0, double x1, double y1, f
 
     if (selector==EditMode::EditNodes || selector == EditMode::EditGroup)
     {
-        for (const auto &node: nodelist)
+        for (size_t idx=0, cnt=nodelist.size(); idx<cnt; idx++)
         {
+            const CNode *node = nodelist[idx].get();
             if (node->IsSelected)
             {
                 CComplex y (node->x,node->y);
@@ -1736,8 +1737,9 @@ void femm::FemmProblem::mirrorCopy(double x0, double y0, double x1, double y1, f
     }
     if (selector == EditMode::EditLines || selector == EditMode::EditGroup)
     {
-        for (const auto &line: linelist)
+        for (size_t idx=0, cnt=linelist.size(); idx<cnt; idx++)
         {
+            const CSegment *line = linelist[idx].get();
             if (line->IsSelected)
             {
                 // copy endpoints
@@ -1772,8 +1774,9 @@ void femm::FemmProblem::mirrorCopy(double x0, double y0, double x1, double y1, f
 
     if (selector == EditMode::EditLabels || selector == EditMode::EditGroup)
     {
-        for (const auto &label: labellist)
+        for (size_t idx=0, cnt=labellist.size(); idx<cnt; idx++)
         {
+            const CBlockLabel *label = labellist[idx].get();
             if (label->IsSelected)
             {
                 std::unique_ptr<CBlockLabel> newlabel = label->clone();
@@ -1793,8 +1796,9 @@ void femm::FemmProblem::mirrorCopy(double x0, double y0, double x1, double y1, f
     }
     if (selector == EditMode::EditArcs || selector == EditMode::EditGroup)
     {
-        for (const auto &arc: arclist)
+        for (size_t idx=0, cnt=arclist.size(); idx<cnt; idx++)
         {
+            const CArcSegment *arc = arclist[idx].get();
             if (arc->IsSelected)
             {
                 // copy endpoints
@@ -1841,8 +1845,9 @@ void femm::FemmProblem::rotateCopy(CComplex c, double dt, int ncopies, femm::Edi
 
         if (selector==EditMode::EditNodes || selector == EditMode::EditGroup)
         {
-            for (const auto &node: nodelist)
+            for (size_t idx=0, cnt=nodelist.size(); idx<cnt; idx++)
             {
+                const CNode *node = nodelist[idx].get();
                 if (node->IsSelected)
                 {
                     CComplex x (node->x, node->y);
@@ -1860,8 +1865,9 @@ void femm::FemmProblem::rotateCopy(CComplex c, double dt, int ncopies, femm::Edi
 
         if (selector == EditMode::EditLines || selector == EditMode::EditGroup)
         {
-            for (const auto &line: linelist)
+            for (size_t idx=0, cnt=linelist.size(); idx<cnt; idx++)
             {
+                const CSegment *line = linelist[idx].get();
                 if (line->IsSelected)
                 {
                     // copy endpoints
@@ -1894,8 +1900,9 @@ void femm::FemmProblem::rotateCopy(CComplex c, double dt, int ncopies, femm::Edi
 
         if (selector == EditMode::EditArcs || selector == EditMode::EditGroup)
         {
-            for (const auto &arc: arclist)
+            for (size_t idx=0, cnt=arclist.size(); idx<cnt; idx++)
             {
+                const CArcSegment *arc = arclist[idx].get();
                 if (arc->IsSelected)
                 {
                     // copy endpoints
@@ -1928,8 +1935,9 @@ void femm::FemmProblem::rotateCopy(CComplex c, double dt, int ncopies, femm::Edi
 
         if (selector == EditMode::EditLabels || selector == EditMode::EditGroup)
         {
-            for (const auto &label: labellist)
+            for (size_t idx=0, cnt=labellist.size(); idx<cnt; idx++)
             {
+                const CBlockLabel *label = labellist[idx].get();
                 if (label->IsSelected)
                 {
                     std::unique_ptr<CBlockLabel> newlabel = label->clone();
@@ -2158,8 +2166,9 @@ void femm::FemmProblem::translateCopy(double incx, double incy, int ncopies, fem
 
         if (selector==EditMode::EditNodes || selector == EditMode::EditGroup)
         {
-            for (const auto &node: nodelist)
+            for (size_t idx=0, cnt=nodelist.size(); idx<cnt; idx++)
             {
+                const CNode *node = nodelist[idx].get();
                 if (node->IsSelected)
                 {
                     // create copy
@@ -2175,8 +2184,9 @@ void femm::FemmProblem::translateCopy(double incx, double incy, int ncopies, fem
 
         if (selector == EditMode::EditLines || selector == EditMode::EditGroup)
         {
-            for (const auto &line: linelist)
+            for (size_t idx=0, cnt=linelist.size(); idx<cnt; idx++)
             {
+                const CSegment *line = linelist[idx].get();
                 if (line->IsSelected)
                 {
                     // copy endpoints
@@ -2205,8 +2215,9 @@ void femm::FemmProblem::translateCopy(double incx, double incy, int ncopies, fem
 
         if (selector == EditMode::EditLabels || selector == EditMode::EditGroup)
         {
-            for (const auto &label: labellist)
+            for (size_t idx=0, cnt=labellist.size(); idx<cnt; idx++)
             {
+                const CBlockLabel *label = labellist[idx].get();
                 if (label->IsSelected)
                 {
                     std::unique_ptr<CBlockLabel> newlabel = label->clone();
@@ -2221,8 +2232,9 @@ void femm::FemmProblem::translateCopy(double incx, double incy, int ncopies, fem
 
         if (selector == EditMode::EditArcs || selector == EditMode::EditGroup)
         {
-            for (const auto &arc: arclist)
+            for (size_t idx=0, cnt=arclist.size(); idx<cnt; idx++)
             {
+                const CArcSegment *arc = arclist[idx].get();
                 if (arc->IsSelected)
                 {
                     // copy endpoints
